@@ -147,6 +147,9 @@ def edit(mods, e):
         x.connect("bp", h.AnonymousBundle(x=m.s, y=m.t))
     elif w == "unnamed":
         m.name = e.get("name", "Named")
+    elif w == "addref":            # two more resistors, one connected to a port of the other (a port reference to resolve)
+        rx0 = m.add(h.Instance(of=h.R(r=1), name="rx0")); rx0.connect("p", m.s)
+        rx1 = m.add(h.Instance(of=h.R(r=1), name="rx1")); rx1.connect("n", m.s); rx1.connect("p", rx0.n)
     elif w == "addsig":            # an edit that repairs nothing: one more signal
         m.add(h.Signal(name="extra"))
     else:
